@@ -631,8 +631,10 @@ class AxEnv:
                     if not m["aw"] and not m["w"]:
                         m["st"] = "resp"
                 elif m["st"] == "resp":
-                    if bv and pl[4 * i + 3]:
-                        m["st"] = "idle"
+                    m["age"] = m.get("age", 0) + 1
+                    if (bv and pl[4 * i + 3]) or m["age"] > 4 * (inst.t or 4) + 20:
+                        m["st"] = "idle"                 # response taken (or software watchdog: response phase
+                        m["age"] = 0                     # is not covered by the bus timeout)
                         m["gap"] = rng.choice((0, 0, 1, 3))
                 arr, rv, _, _, rl = last[br_ + 5 * i: br_ + 5 * i + 5]
                 m = self.mr[i]
@@ -640,8 +642,11 @@ class AxEnv:
                     if arr and pl[4 * n + 4 * k + 3 * i]:
                         m["st"] = "resp"
                 elif m["st"] == "resp":
-                    if rv and pl[4 * n + 4 * k + 3 * i + 2] and (rl or not inst.full):
+                    m["age"] = m.get("age", 0) + 1
+                    if (rv and pl[4 * n + 4 * k + 3 * i + 2] and (rl or not inst.full)) or \
+                            m["age"] > 4 * (inst.t or 4) + 20:
                         m["st"] = "idle"
+                        m["age"] = 0
                         m["gap"] = rng.choice((0, 0, 1, 3))
             for j in range(k):
                 awv, _, wv, brdy = last[4 * j: 4 * j + 4]
@@ -671,6 +676,12 @@ class AxEnv:
                     s["got_aw"] -= 1
                     s["got_w"] -= 1
                     s["pend"].append(rng.randint(0, 4))
+                    s["dangling"] = 0
+                elif s["got_aw"] or s["got_w"]:
+                    # half a write (its other half was absorbed by the timeout): the slave aborts it eventually
+                    s["dangling"] = s.get("dangling", 0) + 1
+                    if s["dangling"] > 2 * (self.i.t or 4) + 8:
+                        s["got_aw"] = s["got_w"] = s["dangling"] = 0
                 if p_bv and brdy and s["pend"]:
                     s["pend"].pop(0)
                 elif s["pend"] and s["pend"][0] > 0:
@@ -721,6 +732,8 @@ class AxEnv:
             s = self.sw[j]
             awr = 1 if (s["lat"] is not None and s["aw_seen"] >= s["lat"]) else 0
             wr = 1 if (s["wlat"] is not None and s["w_seen"] >= s["wlat"]) else 0
+            if wr and not (s["got_aw"] > s["got_w"] or (awr and s["aw_seen"] > 0)):
+                wr = 0                                   # W only together with or after its AW
             bv = 1 if (s["pend"] and s["pend"][0] == 0) else 0
             out += [awr, wr, bv, rng.choice((0, 0, 0, 2, 3)) if bv else 0]
         for i in range(n):
